@@ -7,4 +7,8 @@ import NdnProofs.Props.C11
 #print axioms Ndn.C11.compile_correct_partial
 #print axioms Ndn.C11.compiled_match_iff
 #print axioms Ndn.C11.compiled_vdet
+#print axioms Ndn.C11.tree_eq_chains
+#print axioms Ndn.C11.checker_reports_iff_chain
+#print axioms Ndn.C11.merge_key_test_sound
+#print axioms Ndn.C11.compile_split
 #print axioms Ndn.C11.matchNames_spec
